@@ -4,6 +4,8 @@
 (2) mitmproxy/addons/tlsconfig.py TlsConfig.get_cert: whether the statement
     `altnames.append(_ip_or_dns_name(upstream_cert.cn))` stands alone (CN_GUARDED = false) or is the only
     statement of a `try:` whose single handler is `except ValueError: pass` (CN_GUARDED = true).
+(3) mitmproxy/certs.py dummy_cert: the `critical=` argument of the SubjectAlternativeName extension is
+    `not is_valid_commonname` (SAN_CRIT_BY_SUBJECT = false) or `not subject` (true).
 Fails closed on anything else."""
 import ast
 import os
@@ -47,6 +49,24 @@ def translate(repo: str) -> str:
             or "now = datetime.datetime.now()" not in src:
         raise ValueError("dummy_cert validity expressions changed")
 
+    # criticality of the subjectAltName extension in dummy_cert
+    crit = []
+    for n in ast.walk(dc[0]):
+        if isinstance(n, ast.Call) and ast.unparse(n.func) == "builder.add_extension" and n.args \
+                and ast.unparse(n.args[0]).startswith("x509.SubjectAlternativeName("):
+            kw = [k for k in n.keywords if k.arg == "critical"]
+            if len(kw) != 1 or len(n.args) != 1:
+                raise ValueError("SubjectAlternativeName: unexpected add_extension arguments")
+            crit.append(ast.unparse(kw[0].value))
+    if crit == ["not is_valid_commonname"]:
+        crit_by_subject = False
+    elif crit == ["not subject"]:
+        if "subject = []" not in src or "builder.subject_name(x509.Name(subject))" not in src:
+            raise ValueError("dummy_cert: `subject` is not the list of subject attributes")
+        crit_by_subject = True
+    else:
+        raise ValueError(f"unknown subjectAltName criticality expression(s): {crit}")
+
     t2 = ast.parse(open(os.path.join(repo, "mitmproxy", "addons", "tlsconfig.py")).read())
     cls = [n for n in t2.body if isinstance(n, ast.ClassDef) and n.name == "TlsConfig"]
     if len(cls) != 1:
@@ -89,4 +109,5 @@ def translate(repo: str) -> str:
             "From Coq Require Import ZArith.\n"
             f"Definition VALIDITY_OFFSET : Z := ({consts['CERT_VALIDITY_OFFSET'] * 86400})%Z.\n"
             f"Definition CERT_EXPIRY : Z := ({consts['CERT_EXPIRY'] * 86400})%Z.\n"
-            f"Definition CN_GUARDED : bool := {'true' if found[0] else 'false'}.\n")
+            f"Definition CN_GUARDED : bool := {'true' if found[0] else 'false'}.\n"
+            f"Definition SAN_CRIT_BY_SUBJECT : bool := {'true' if crit_by_subject else 'false'}.\n")
